@@ -131,6 +131,7 @@ Definition unappliable (v : view) (e : event) : bool :=
   | ERemove i =>
     (i <? 0)%Z || match v with Some (RColl c) => len c <=? Z.to_N i | None => true | _ => false end
   | ECreate _ => match v with Some _ => true | None => false end
+  | ECreateBad => true
   | EDelete => false
   end.
 
